@@ -106,6 +106,17 @@ def dispatch (f : String) (j : Json) : Option Json :=
           | _, _ => bad
         | _ => bad
       return Json.arr (cs.toList.map one).toArray
+  | "C06.params_offset" => some <| Id.run do
+      let some lines := (get j "lines").bind parseLines | return bad
+      let some put := (get j "put").bind parseLines | return bad
+      let some qs := (getArr j "qs").bind (fun a => a.toList.mapM asNats) | return bad
+      let one (q : List Nat) : Json :=
+        match q with
+        | [ln, col, endLn, endCol] =>
+          let r := paramsOffsetC lines put ln col endLn endCol
+          Json.arr #[ofNat r.1, ofInt r.2.1, ofInt r.2.2.1, ofInt r.2.2.2]
+        | _ => bad
+      return Json.arr (qs.map one).toArray
   | "C06.is_space" => some <| Id.run do
       let some cs := (get j "chars").bind asNats | return bad
       return Json.arr (cs.map (fun c => Json.bool (isSpace (Char.ofNat c)))).toArray
